@@ -1,10 +1,27 @@
 /-
   Helper lemmas for LayerB/PutDelete.lean (C11: the un-awaited `put(k); delete(k)` of ONE caller, for all interleavings).
 
-    1  tags: the key a command / a client position is aimed at (`cmdKey?`, `onK`), the positions of `shutdown()`
-       (`shutPath`); `client_tags`: a client action never CREATES a tag
-    2  `Env`: the environment invariant of the histories considered — no `shutdown()` under way, no client but `i`
-       works on a put / upsert / delete of `k`
+    1   tags: the key a command / a client position is aimed at (`cmdKey?`, `onK`), the positions of `shutdown()`
+        (`shutPath`); `client_tags`: a client action never CREATES a tag
+    2   one action, thread by thread (`stepB_issue_inv`, …)
+    3   `Env`: the environment invariant — no `shutdown()` under way, no client but `i` works on a put / upsert / delete
+        of `k` — and `env_step`
+    4   the worker's takes, exactly (`takeW`, `worker_recv`), `WOff`
+    5   the ledger and the fresh ids under one worker action
+    6   `isForeignRemove` (evictions and sweeps of `k`), `Present`, `present_step`, `absent_step`
+    7   `OtherEff`: what an action of a thread other than the worker does
+    8   the worker inside ONE put command (`put_complete`, `PutEnd`, `occ_after_complete`)
+    9   THE INVARIANT of the pair: `PDE` (EARLY: the `Delete` has not run its `store.remove`) and `PDL` (LATE); the
+        steps of the other threads (`pde_other`, `pdl_other`)
+    10  the worker's steps (`pde_worker`, `pdl_worker`)
+    11  the two calls of client `i` (`put_call_step`, `del_call_step`, `pde_send`)
+    12  histories: prefixes, reachability, the worker alive
+    13  the scenario `Scen`, the invariant along the run `J`, `main_inv`
+    14  reading the invariant (`pde_pending`, `pdl_answered`)
+    15  `ShutQ`: in a running cache no `Shutdown` command waits
+    16  `ret_ack_pending`: a call that returns a pending acknowledgement returned from its `cmd.send`
+    17  `QSorted`, `LifeOf`, `Before`: one client's commands in the queue, `Sent`
+    18  `PP`, `SoftK`, `ExactK`, `PastMark`, `good_at`, `after_putpoint`: the `delete.mark` and the put's `store.put`
 -/
 import CachedProofs.LayerB.History
 import CachedProofs.LayerB.Bijection
@@ -397,6 +414,7 @@ theorem woff_takeW {k : Nat} {cmd : Cmd} {hh : Option Nat} (h : cmdKey? cmd ≠ 
   · rw [takeW_cmd hc, e]
   · rw [(takeW_delStore e).1]; rfl
 
+set_option linter.unusedSimpArgs false in
 /-- a worker action that is not a take keeps `WOff` -/
 theorem woff_keep {k : Nat} {b b' : BState} (ht : WTrans b b') (hw : b.w ≠ .recv) (ho : WOff k b.w) : WOff k b'.w := by
   obtain ⟨h1, h2⟩ := ho
@@ -2135,6 +2153,336 @@ theorem returned_sent {b0 b : BState} {h : List (BState × Act)} (hrun : RunH b0
   subst this
   obtain ⟨cmd, hpc, h1, h2, h3⟩ := ret_ack_pending (by simpa [stepB] using hstep) hidle hres
   exact ⟨cmd, s, s'', hx, hst', hpc, h1, h2, h3⟩
+
+/-! ## 18  the `delete.mark` and the put's `store.put`: hidden at once, or readable for a while -/
+
+/-- the put's `store.put` has run: the worker stands at the put's `ttl.put`, or the put is answered -/
+def PP (h₁ : Nat) (c₁ : PutCmd) (s : BState) : Prop := (∃ e, s.w = .ttlPut c₁ e) ∨ Answered s h₁
+
+theorem pp_step {h₁ : Nat} {c₁ : PutCmd} {s s' : BState} {a : Act} {o o' : Oracle} (hch : c₁.h = some h₁)
+    (hi : HInv s) (hpp : PP h₁ c₁ s) (hs : stepB s a o = .ok (s', o')) : PP h₁ c₁ s' := by
+  rcases hpp with ⟨e, hw⟩ | hans
+  · by_cases ha : a = .worker
+    · subst ha
+      have hheld : s.w.held = some h₁ := by rw [hw]; exact hch
+      have hlt := hi.lt_held hheld
+      have hsw : workerAct s o = .ok (s', o') := hs
+      simp only [workerAct, hw] at hsw
+      split at hsw
+      · cases hsw
+      · simp only [Except.ok.injEq, Prod.mk.injEq] at hsw
+        obtain ⟨rfl, _⟩ := hsw
+        exact Or.inr ⟨.accepted, by simp only [finishCmd, hch]; exact setAck_get_self _ _ (by simpa [ttlPut] using hlt),
+          by simp⟩
+    · exact Or.inl ⟨e, by rw [ent_stepB_w_other hs ha]; exact hw⟩
+  · exact Or.inr (answered_step hi hs hans)
+
+theorem cmdId?_cmdOfPut (c : PutCmd) : cmdId? (cmdOfPut c) = some c.id := by
+  unfold cmdOfPut; split <;> rfl
+
+/-- once the put's `store.put` has run, the worker never stands at the `store.put` of a put of `k` again -/
+theorem nomoreput_pde {k h₁ : Nat} {c₁ : PutCmd} {H : List (BState × Act)} {ds : Option Nat} {s : BState}
+    (hch : c₁.h = some h₁) (hh : HInv s) (hpp : PP h₁ c₁ s) (hi : PDE k h₁ c₁ H ds s) :
+    ∀ c, s.w = .storePut c → c.k ≠ k := by
+  intro c hw
+  cases hi with
+  | pq qa rest hq hrest =>
+    exfalso
+    rcases hpp with ⟨e, hw'⟩ | ⟨st, hst, hne⟩
+    · rw [hw] at hw'; cases hw'
+    · have : h₁ ∈ qHandles s.g.queue := mem_qHandles.mpr ⟨cmdOfPut c₁, by rw [hq]; simp⟩
+      rw [hh.queued h₁ this] at hst
+      cases hst; exact hne rfl
+  | pw hc hrest httl =>
+    exfalso
+    rcases hpp with ⟨e, hw'⟩ | ⟨st, hst, hne⟩
+    · rw [hw] at hw'; cases hw'
+    · have hheld : s.w.held = some h₁ := by rw [held_of_cmd hc, hch]
+      rw [(hh.held h₁ hheld).1] at hst
+      cases hst; exact hne rfl
+  | pd pres lo hp hpres hoff hrest => exact woff_storePut hoff c hw
+  | dw0 h₂ pres lo hds hp hpres hw' hkf => rw [hw] at hw'; cases hw'
+
+theorem nomoreput_pdl {k h₁ : Nat} {c₁ : PutCmd} {H : List (BState × Act)} {h₂ : Nat} {s : BState}
+    (hi : PDL k h₁ c₁ H h₂ s) : ∀ c, s.w = .storePut c → c.k ≠ k := by
+  intro c hw
+  cases hi with
+  | dw1 lo d hp hd hlod hheld htail hkf hnone => rw [hw] at htail; cases htail
+  | dd pres lo d st₂ hp hd hlod hack hres hkf hoff hnone hkw => exact woff_storePut hoff c hw
+
+/-- every entry of `k` in the store is soft-deleted (hidden from reads) -/
+def SoftK (k : Nat) (s : BState) : Prop := ∀ e, s.g.store.get? k = some e → e.soft = true
+
+theorem soft_step {k : Nat} {s s' : BState} {a : Act} {o o' : Oracle} (hs : stepB s a o = .ok (s', o'))
+    (hnp : ∀ c, s.w = .storePut c → c.k ≠ k) (h : SoftK k s) : SoftK k s' := by
+  intro e' he'
+  have heff := stepB_storeEff hs
+  cases heff
+  case same hst => rw [hst] at he'; exact h e' he'
+  case put c exp hw _ _ hst => rw [hst, AMap.get?_set_other _ _ (hnp c hw)] at he'; exact h e' he'
+  case del k1 hh e1 hw he1 hst =>
+    rw [hst, AMap.get?_del] at he'
+    split at he'
+    · cases he'
+    · exact h e' he'
+  case evict c inc sm id wk hw hst =>
+    rw [hst, AMap.get?_del] at he'
+    split at he'
+    · cases he'
+    · exact h e' he'
+  case sweep v now sh rest id wk hw hm hst =>
+    rw [hst, AMap.get?_del] at he'
+    split at he'
+    · cases he'
+    · exact h e' he'
+  case mark i k1 e1 hpc he1 hst =>
+    rw [hst, AMap.get?_set] at he'
+    split at he'
+    · cases he'; rfl
+    · exact h e' he'
+  case upsert i k1 v w ttl rm e1 exp hpc he1 hexp hst =>
+    rw [hst, AMap.get?_set] at he'
+    split at he'
+    · rename_i hkk; subst hkk; cases he'; exact h e1 he1
+    · exact h e' he'
+  case clear i hpc hst => rw [hst] at he'; cases he'
+
+/-- every entry of `k` in the store is the put's: its value, its key id, not soft-deleted -/
+def ExactK (k v id : Nat) (s : BState) : Prop :=
+  ∀ e, s.g.store.get? k = some e → e.value = v ∧ e.id = id ∧ e.soft = false
+
+theorem exact_step {k v id : Nat} {s s' : BState} {a : Act} {o o' : Oracle} (hs : stepB s a o = .ok (s', o'))
+    (hnp : ∀ c, s.w = .storePut c → c.k ≠ k) (hnm : ∀ j : Nat, s.cl[j]? ≠ some (.delMark k))
+    (hnu : ∀ (j : Nat) v' w ttl rm, s.cl[j]? ≠ some (.upUpdate k v' w ttl rm)) (h : ExactK k v id s) :
+    ExactK k v id s' := by
+  intro e' he'
+  have heff := stepB_storeEff hs
+  cases heff
+  case same hst => rw [hst] at he'; exact h e' he'
+  case put c exp hw _ _ hst => rw [hst, AMap.get?_set_other _ _ (hnp c hw)] at he'; exact h e' he'
+  case del k1 hh e1 hw he1 hst =>
+    rw [hst, AMap.get?_del] at he'
+    split at he'
+    · cases he'
+    · exact h e' he'
+  case evict c inc sm id' wk hw hst =>
+    rw [hst, AMap.get?_del] at he'
+    split at he'
+    · cases he'
+    · exact h e' he'
+  case sweep v0 now sh rest id' wk hw hm hst =>
+    rw [hst, AMap.get?_del] at he'
+    split at he'
+    · cases he'
+    · exact h e' he'
+  case mark i k1 e1 hpc he1 hst =>
+    rw [hst, AMap.get?_set] at he'
+    split at he'
+    · rename_i hkk; subst hkk; exact absurd hpc (hnm i)
+    · exact h e' he'
+  case upsert i k1 v0 w ttl rm e1 exp hpc he1 hexp hst =>
+    rw [hst, AMap.get?_set] at he'
+    split at he'
+    · rename_i hkk; subst hkk; exact absurd hpc (hnu i v0 w ttl rm)
+    · exact h e' he'
+  case clear i hpc hst => rw [hst] at he'; cases he'
+
+/-- a client outside every put / upsert / delete of `k` stands neither at `delete.mark(k)` nor at `upsert.update(k)` -/
+theorem off_no_mark {k : Nat} {pc : CPc} (h : onK k pc = false) :
+    pc ≠ .delMark k ∧ ∀ v' w ttl rm, pc ≠ .upUpdate k v' w ttl rm := by
+  constructor
+  · rintro rfl; simp [onK] at h
+  · rintro v' w ttl rm rfl; simp [onK] at h
+
+/-- induction along the rest of a run, the action and its index at hand -/
+theorem run_induct' {cfg : Cfg} {now : Nat} {seeds : List Nat} {clients : Nat} {b0 b : BState}
+    {h : List (BState × Act)} (hr0 : Reach cfg now seeds clients b0) (hrun : RunH b0 h b) (P : BState → Prop)
+    {m : Nat}
+    (hstep : ∀ (d : Nat) (s s' : BState) (a : Act) (o o' : Oracle), At h (m + d) (s, a) → StateAt h b (m + d + 1) s' →
+      P s → stepB s a o = .ok (s', o') → P s')
+    {s0 : BState} (hst0 : StateAt h b m s0) (h0 : P s0) :
+    ∀ (d : Nat) (s : BState), StateAt h b (m + d) s → P s := by
+  have _ := hr0
+  intro d
+  induction d with
+  | zero => intro s hst; rw [← hst0.inj hst]; exact h0
+  | succ d ih =>
+    intro s' hst'
+    obtain ⟨s1, a, o, o', hx, hs⟩ := stateAt_succ hrun (m := m + d) hst'
+    exact hstep d s1 s' a o o' hx hst' (ih s1 (Or.inr ⟨a, hx⟩)) hs
+
+/-- an idle client stays idle as long as it issues nothing -/
+theorem idle_persists {b0 b : BState} {h : List (BState × Act)} (hrun : RunH b0 h b) {i lo hi : Nat}
+    (hno : ∀ q r, lo ≤ q → q < hi → ¬ Issued h i r q) {s : BState} (hst : StateAt h b lo s)
+    (hid : s.cl[i]? = some .idle) :
+    ∀ (d : Nat) (s' : BState), lo + d ≤ hi → StateAt h b (lo + d) s' → s'.cl[i]? = some .idle := by
+  intro d
+  induction d with
+  | zero => intro s' _ hst'; rw [← hst.inj hst']; exact hid
+  | succ d ih =>
+    intro s' hle hst'
+    obtain ⟨s1, a, o, o', hx, hs⟩ := stateAt_succ hrun (m := lo + d) hst'
+    have hid1 := ih s1 (by omega) (Or.inr ⟨a, hx⟩)
+    have hai : a ≠ .client i := fun e => by subst e; exact absurd hs (client_idle_stuck hid1)
+    have hni : ∀ r, a ≠ .issue i r := fun r e => hno (lo + d) r (by omega) (by omega) ⟨s1, e ▸ hx⟩
+    rw [other_threads_keep_pc hs hai hni]; exact hid1
+
+/-- the invariant of the put / delete pair in one of its shapes -/
+def Good (k h₁ : Nat) (c₁ : PutCmd) (s : BState) : Prop :=
+  ∃ H, (∃ ds, PDE k h₁ c₁ H ds s) ∨ ∃ h₂', PDL k h₁ c₁ H h₂' s
+
+theorem good_nomoreput {k h₁ : Nat} {c₁ : PutCmd} {s : BState} (hch : c₁.h = some h₁) (hh : HInv s)
+    (hpp : PP h₁ c₁ s) (hg : Good k h₁ c₁ s) : ∀ c, s.w = .storePut c → c.k ≠ k := by
+  obtain ⟨H, ⟨ds, h⟩ | ⟨h₂', h⟩⟩ := hg
+  · exact nomoreput_pde hch hh hpp h
+  · exact nomoreput_pdl h
+
+/-- the worker at the `store.put` of a put of `k` under the key id of the put: it is THE put -/
+theorem good_storePut {k h₁ : Nat} {c₁ : PutCmd} {s : BState} (hb : BInv s) (hg : Good k h₁ c₁ s) {c : PutCmd}
+    (hw : s.w = .storePut c) (hk : c.k = k) (hid : c.id = c₁.id) : c = c₁ := by
+  obtain ⟨H, ⟨ds, h⟩ | ⟨h₂', h⟩⟩ := hg
+  · cases h with
+    | pq qa rest hq hrest =>
+      exfalso
+      have h1 := hb.freshIds.1 c₁.id
+      have h2 : 1 ≤ (qIds s.g.queue).count c₁.id := by
+        rw [hq, qIds_append, qIds_cons, cmdId?_cmdOfPut]
+        simp only [Option.toList_some, List.singleton_append, List.count_append, List.count_cons_self]
+        omega
+      rw [occ_eq, hw] at h1
+      simp only [WPc.freshId?, hid, Option.toList_some, List.count_cons_self, List.count_nil, qc] at h1
+      omega
+    | pw hc hrest httl => rw [hw] at hc; simp only [WPc.cmd?, Option.some.injEq] at hc; exact hc
+    | pd pres lo hp hpres hoff hrest => exact absurd hk (woff_storePut hoff c hw)
+    | dw0 h₂ pres lo hds hp hpres hw' hkf => rw [hw] at hw'; cases hw'
+  · cases h with
+    | dw1 lo d hp hd hlod hheld htail hkf hnone => rw [hw] at htail; cases htail
+    | dd pres lo d st₂ hp hd hlod hack hres hkf hoff hnone hkw => exact absurd hk (woff_storePut hoff c hw)
+
+/-- while the `Delete(k)` has not run its `store.remove` it waits in the queue, or the worker stands at that action -/
+theorem pde_waits {k h₁ : Nat} {c₁ : PutCmd} {H : List (BState × Act)} {h₂ : Nat} {s : BState}
+    (hi : PDE k h₁ c₁ H (some h₂) s) : h₂ ∈ qHandles s.g.queue ∨ s.w = .delStore k (some h₂) := by
+  have hq : ∀ {rest : List (Cmd × Option Nat)}, RestOk k (some h₂) rest → (∀ p ∈ rest, p ∈ s.g.queue) →
+      h₂ ∈ qHandles s.g.queue := by
+    intro rest ⟨qb, qc, hr, _, _⟩ hsub
+    refine mem_qHandles.mpr ⟨.delete k, hsub _ ?_⟩
+    rw [hr]; simp
+  cases hi with
+  | pq qa rest hq0 hrest => exact Or.inl (hq hrest (fun p hp => by rw [hq0]; simp [hp]))
+  | pw _ hrest _ => exact Or.inl (hq hrest (fun p hp => hp))
+  | pd _ _ _ _ _ hrest => exact Or.inl (hq hrest (fun p hp => hp))
+  | dw0 h₂' _ _ hds _ _ hw _ => cases hds; exact Or.inr hw
+
+theorem pdl_absent {k h₁ : Nat} {c₁ : PutCmd} {H : List (BState × Act)} {h₂ : Nat} {s : BState}
+    (hi : PDL k h₁ c₁ H h₂ s) : s.g.store.get? k = none := by
+  cases hi with
+  | dw1 _ _ _ _ _ _ _ _ hnone => exact hnone
+  | dd _ _ _ _ _ _ _ _ _ _ _ hnone _ => exact hnone
+
+/-- the invariant, read at a state after the put returned: the environment, and the put / delete pair in one of its
+    shapes (inside the delete call the degenerate branch "returned early" of `J` is excluded: the call returns at `r₂`) -/
+theorem good_at {b0 bf : BState} {hf : List (BState × Act)} {i k v : Nat} {w : Int} {ttl : Option Nat}
+    {n₁ r₁ n₂ r₂ h₁ h₂ : Nat} (hrun : RunH b0 hf bf) (sc : Scen hf bf i k v w ttl n₁ r₁ n₂ r₂ h₁ h₂)
+    (hinv : ∀ m s, StateAt hf bf m s → ∃ H, Sub H hf ∧ H.length = m ∧ J hf i k v w ttl n₁ r₁ n₂ r₂ h₁ h₂ H s)
+    {c₁ : PutCmd} (hc₁ : IsCmd hf i k v w ttl r₁ h₁ c₁) {m : Nat} {s : BState} (hm : r₁ < m)
+    (hst : StateAt hf bf m s) :
+    Env i k s ∧ Good k h₁ c₁ s ∧
+    (r₂ < m → (∀ pc, s.cl[i]? = some pc → onK k pc = false) ∧
+      ∃ H, PDE k h₁ c₁ H (some h₂) s ∨ PDL k h₁ c₁ H h₂ s) := by
+  obtain ⟨H, _, hlen, he, _, hP2, hP3, hP4⟩ := hinv m s hst
+  subst hlen
+  refine ⟨he, ?_, ?_⟩
+  · by_cases h2 : H.length ≤ n₂
+    · obtain ⟨_, c₁', hc', hpde⟩ := hP2 hm h2
+      have := hc₁.unique hc'; subst this
+      exact ⟨H, Or.inl ⟨none, hpde⟩⟩
+    · by_cases h3 : H.length ≤ r₂
+      · rcases hP3 (by omega) h3 with ⟨_, c₁', hc', hpde⟩ | hid
+        · have := hc₁.unique hc'; subst this
+          exact ⟨H, Or.inl ⟨none, hpde⟩⟩
+        · exfalso
+          obtain ⟨sB, _, hxB, _⟩ := sc.ret2
+          have hidB := idle_persists hrun (lo := H.length) (hi := r₂)
+            (fun q r h1 h2' => sc.same2 q r (by omega) h2') hst hid (r₂ - H.length) sB (by omega)
+            (by rw [show H.length + (r₂ - H.length) = r₂ by omega]; exact Or.inr ⟨_, hxB⟩)
+          obtain ⟨s', o, o', _, hstep, _⟩ := runH_at hrun hxB
+          exact client_idle_stuck hidB hstep
+      · obtain ⟨_, c₁', hc', hpd⟩ := hP4 (by omega)
+        have := hc₁.unique hc'; subst this
+        rcases hpd with h | h
+        · exact ⟨H, Or.inl ⟨_, h⟩⟩
+        · exact ⟨H, Or.inr ⟨_, h⟩⟩
+  · intro h4
+    obtain ⟨hoff, c₁', hc', hpd⟩ := hP4 h4
+    have := hc₁.unique hc'; subst this
+    exact ⟨hoff, H, hpd⟩
+
+/-- client `i` is past its `delete.mark(k)`: it stands at the `cmd.send` of the `Delete(k)`, or outside every put / upsert
+    / delete of `k` -/
+def PastMark (i k : Nat) (s : BState) : Prop :=
+  ∀ pc, s.cl[i]? = some pc → pc = .send (.delete k) ∨ onK k pc = false
+
+theorem pastMark_step {i k : Nat} {s s' : BState} {a : Act} {o o' : Oracle} (hrun : s.g.shutting = false)
+    (hs : stepB s a o = .ok (s', o')) (hiss : ∀ r, a = .issue i r → reqOnK k r = false) (hq : PastMark i k s) :
+    PastMark i k s' := by
+  intro pc' hpc'
+  by_cases h1 : a = .client i
+  · subst h1
+    have hs' : clientAct s i o = .ok (s', o') := hs
+    cases hpc : s.cl[i]? with
+    | none => simp [clientAct, hpc] at hs'
+    | some pc =>
+      rcases hq pc hpc with rfl | hoff
+      · rcases del_call_step hs' hrun (Or.inr (Or.inr hpc)) with ⟨_, hns⟩ | ⟨out, hret, _⟩
+        · exact absurd hpc (hns _)
+        · rw [hret.1] at hpc'; cases hpc'; exact Or.inr rfl
+      · exact Or.inr (bool_false_of_imp ((client_tags hs' hpc hpc').1 k) hoff)
+  · by_cases h2 : ∃ r, a = .issue i r
+    · obtain ⟨r, rfl⟩ := h2
+      obtain ⟨_, rfl⟩ := stepB_issue_inv hs
+      have := pc_of_set hpc'; subst this
+      exact Or.inr (hiss r rfl)
+    · rw [other_threads_keep_pc hs h1 (fun r e => h2 ⟨r, e⟩)] at hpc'
+      exact hq pc' hpc'
+
+theorem pastMark_no_mark {i k : Nat} {s : BState} (he : Env i k s) (hq : PastMark i k s) :
+    (∀ j : Nat, s.cl[j]? ≠ some (.delMark k)) ∧ ∀ (j : Nat) v' w ttl rm, s.cl[j]? ≠ some (.upUpdate k v' w ttl rm) := by
+  have key : ∀ (j : Nat) (pc : CPc), s.cl[j]? = some pc →
+      pc ≠ .delMark k ∧ ∀ v' w ttl rm, pc ≠ .upUpdate k v' w ttl rm := by
+    intro j pc hpc
+    by_cases hj : j = i
+    · subst hj
+      rcases hq pc hpc with rfl | hoff
+      · exact ⟨by simp, by simp⟩
+      · exact off_no_mark hoff
+    · exact off_no_mark (he.others j pc hj hpc)
+  exact ⟨fun j h => (key j _ h).1 rfl, fun j v' w ttl rm h => (key j _ h).2 v' w ttl rm rfl⟩
+
+/-- **Right after the put's `store.put`**: the put's `store.put` has run (`PP`), and the store holds for `k` the put's
+    entry — its value, its key id, NOT soft-deleted. -/
+theorem after_putpoint {cfg : Cfg} {now : Nat} {seeds : List Nat} {clients : Nat} {b0 b : BState}
+    {h : List (BState × Act)} (hr0 : Reach cfg now seeds clients b0) (hrun : RunH b0 h b) {k h₁ v v' : Nat}
+    {c₁ : PutCmd} (hck : c₁.k = k) (hcv : c₁.v = v) (hch : c₁.h = some h₁) {p : Nat} {x : BState × Act}
+    (hx : At h p x) (hput : isPut k v' c₁.id x) (hg : Good k h₁ c₁ x.1) :
+    ∃ s' exp, StateAt h b (p + 1) s' ∧ PP h₁ c₁ s' ∧
+      s'.g.store.get? k = some { value := v, id := c₁.id, expiry := exp, soft := false } := by
+  obtain ⟨sp, a⟩ := x
+  obtain ⟨ha, c, exp, hw, hk, _, hid, hexp⟩ := hput
+  simp only at ha hw hk hid hexp hg
+  subst ha
+  have hrs := stateAt_reach hr0 hrun (Or.inr ⟨_, hx⟩ : StateAt h b p sp)
+  have := good_storePut (binv_reach hrs) hg hw hk hid
+  subst this
+  obtain ⟨s', o, o', _, hstep, hst', _⟩ := runH_at hrun hx
+  have hheld : sp.w.held = some h₁ := by rw [hw]; exact hch
+  have hlt := (hinv_reach hrs).lt_held hheld
+  obtain ⟨_, _, ⟨_, rfl⟩ | ⟨t, ht, hadd, rfl⟩ | ⟨t, e, _, _, rfl⟩⟩ := ent_workerAct_storePut hw (by simpa [stepB] using hstep)
+  · refine ⟨_, none, hst', Or.inr ⟨.accepted, ?_, by simp⟩, ?_⟩
+    · simp only [finishCmd, hch]; exact setAck_get_self _ _ hlt
+    · simp only [finishCmd]; rw [hck, hcv]; exact AMap.get?_set_same _ _ _
+  · rw [ht] at hexp; simp [putExpiry, hadd] at hexp
+  · refine ⟨_, some e, hst', Or.inl ⟨e, rfl⟩, ?_⟩
+    simp only []; rw [hck, hcv]; exact AMap.get?_set_same _ _ _
 
 end PD
 end B
